@@ -3,16 +3,17 @@
 # Applies <seed-dir>/patch.diff to /repo, runs the repo tests, the demo (rewritten to import from /repo) and the given checks, then reverts
 # and runs the demo again on the clean tree.  Prints DETECTED / MISSED per check.
 D=$(cd "$1" && pwd); shift
-cd /repo || exit 2
-if [ -n "$(git status --porcelain --untracked-files=no)" ]; then echo "/repo not clean"; exit 2; fi
+R=${MSMART_REPO:-/repo}
+cd $R || exit 2
+if [ -n "$(git status --porcelain --untracked-files=no)" ]; then echo "$R not clean"; exit 2; fi
 git apply --check "$D/patch.diff" || { echo "PATCH DOES NOT APPLY"; exit 3; }
 WT=$(echo "$D" | sed -n 's#^\(/tmp/wt[0-9]*/C[0-9]*\)/.*#\1#p')
 DEMO=/tmp/demo_$$.py
 if [ -f "$D/demo_test.py" ]; then
-  if [ -n "$WT" ]; then sed "s#$WT#/repo#g" "$D/demo_test.py" > $DEMO; else cp "$D/demo_test.py" $DEMO; fi
+  if [ -n "$WT" ]; then sed "s#$WT#$R#g" "$D/demo_test.py" > $DEMO; else sed "s#/repo#$R#g" "$D/demo_test.py" > $DEMO; fi
 fi
 git apply "$D/patch.diff"
-trap 'git -C /repo checkout -- . ; rm -f $DEMO' EXIT
+trap 'git -C $R checkout -- . ; rm -f $DEMO' EXIT
 echo "files: $(git diff --stat | tail -1)"
 echo "repo tests with patch: $(/venv/bin/python -m pytest -q -p no:cacheprovider --timeout=900 msmart 2>&1 | tail -1)"
 [ -f $DEMO ] && echo "demo WITH patch (must fail): $(/venv/bin/python -m pytest -q -p no:cacheprovider $DEMO 2>&1 | tail -1)"
@@ -23,5 +24,5 @@ for c in "$@"; do
   elif [ $r -eq 0 ]; then echo "$c MISSED";
   else echo "$c HARNESS-ERROR: $(echo "$out" | head -5)"; fi
 done
-git -C /repo checkout -- .
-[ -f $DEMO ] && echo "demo WITHOUT patch (must pass): $(cd /repo && /venv/bin/python -m pytest -q -p no:cacheprovider $DEMO 2>&1 | tail -1)"
+git -C $R checkout -- .
+[ -f $DEMO ] && echo "demo WITHOUT patch (must pass): $(cd $R && /venv/bin/python -m pytest -q -p no:cacheprovider $DEMO 2>&1 | tail -1)"
